@@ -8,7 +8,7 @@ import collections, concurrent.futures, hashlib, os, random, subprocess
 from . import common, l1, loopgen
 
 PROP = "C15"
-LEANCHECK_MODULES = ["Ivy.L1.Select", "Ivy.Props.C15"]
+LEANCHECK_MODULES = ["Ivy.L1.Select", "Ivy.Props.C15", "Ivy.L0.FdPoll", "Ivy.L0.FdPollProofs", "Ivy.Props.C15poll", "Ivy.L0.FdEpoll", "Ivy.L0.FdEpollProofs", "Ivy.Props.C15epoll"]
 MONS = ["C01", "C02", "C03", "C04", "C06", "C07", "C07spin", "C07idle"]
 SANS = ["heap-use-after-free", "heap-buffer-overflow", "SEGV", "null-call", "double-free", "runtime error", "abort", "attempting free"]
 FACILITIES = {
@@ -132,6 +132,7 @@ def run(tier, seed, proof):
             for k in ks:
                 cases.append((f"{fam}{i}-{loopgen.METHOD_NAME[meth]}-eintr{k}", with_cfg(base, meth, [], eintr=k)))
     cases += loopgen.ktimer_cases(seed)
+    cases += loopgen.alias_cases()     # one descriptor number offered to two objects: accepted or refused depending on the method, the first is served
     cases += [c for c in loopgen.retract_cases(seed) if c[0].startswith("tryeintr")]
     fired = collections.Counter()
     viol, div = [], []
@@ -204,6 +205,17 @@ def run(tier, seed, proof):
             open(pth, "w").write("# pump case (replayed by vlib/c17.py)\n" + txt)
             res.impl_violations.append(("C15:pump:" + sig, "iv_fd_pump without splice(2): " + msg, pth))
     res.extra["pump_cases"] = sub17.evaluations
+    # the poll / ppoll back end's own bookkeeping (dense pollfd array, swap-remove, slot numbers, revents -> bands): array-level model
+    # Ivy.L0.FdPoll (theorems Ivy.Props.C15poll), differential run of the real iv_fd_poll.c / iv_fd.c in both methods
+    if os.path.exists(os.path.join(common.VERIF, "vlib", "c15poll.py")):
+        from . import c15poll
+        c15poll.check(tier, seed, res)
+    # the registration bookkeeping of the epoll back ends (deferred notify list, ADD/MOD/DEL choice, belief = kernel interest list):
+    # model Ivy.L0.FdEpoll (theorems Ivy.Props.C15epoll), differential run of the real iv_fd.c + iv_fd_epoll.c with epoll_ctl / epoll_wait
+    # wrapped, independent reference on the logged epoll_ctl calls
+    if os.path.exists(os.path.join(common.VERIF, "vlib", "c15epoll.py")):
+        from . import c15epoll
+        c15epoll.check(tier, seed, res)
     res.extra["faults_fired"] = dict(fired)
     res.extra["selection_cases"] = len(sel)
     res.extra["configurations_per_base"] = sum(len(v) for v in FACILITIES.values())
@@ -221,4 +233,10 @@ def replay(path):
     if "# pump case" in open(path).read():
         from . import c17
         return c17.replay(path)
+    if path.endswith(".epollops") or "C15:epoll:" in open(path).read():
+        from . import c15epoll
+        return c15epoll.replay(path)
+    if path.endswith(".pollops") or "C15:poll:" in open(path).read():
+        from . import c15poll
+        return c15poll.replay(path)
     return l1.replay(path)
